@@ -204,8 +204,9 @@ def rule_F3(ctx, R):
             continue
         if "ACQ-SCOPED" in R.roles(f):
             continue   # scoped calls hand the PoisonResult to the closure; it is built by data_mut/data_ref, judged themselves
-        if not any((x["k"] == "adt" and (x["path"] == PERR or x["path"].endswith("TryLockPoisonableError"))) or x["k"] == "alias"
-                   for x in ty_walk(f["output"])):
+        is_trait_item = bool(f.get("trait_item"))
+        if not any((x["k"] == "adt" and (x["path"] == PERR or x["path"].endswith("TryLockPoisonableError"))) or
+                   (x["k"] == "alias" and is_trait_item) for x in ty_walk(f["output"])):
             continue   # reports the flag without producing a guard or data reference (is_poisoned-like accessors, Debug)
         paths, err, I = ctx.paths(f, inline_assume_of=(POIS,))
         if err:
